@@ -241,7 +241,7 @@ func init() {
 		return []Tok{TW("future"), TIn(future), TW("inbuf"), TIn(inbuf), TW("allocKiB"), TI(int64(ms1.TotalAlloc-ms0.TotalAlloc) / 1024), TW("answered"), TIn(answered)}
 	})
 	opTimeout["c12s"] = 15 * time.Second
-	// c12s <qtype> <qclass> <nquestions> <from-owner 0/1> <#label>*     (the labels of the question name as they are on the wire)
+	// c12s <qtype> <qclass> <nquestions> <from-owner 0/1, 2 = from the owner's host but another port> <#label>*     (the labels of the question name as they are on the wire)
 	//   an established session (user 0, address 1, one queued downstream chunk) exists; the crafted query is delivered from a foreign
 	//   address (or from the owner's)
 	//  -> unpackable | (answered <kind> | noanswer | panic <site>) same 0/1 allocKiB <n> [write returns|hangs chunks <n>]
@@ -281,6 +281,8 @@ func init() {
 		from := net.Addr(addrN(9))
 		if a[3].I == 1 {
 			from = addrN(1)
+		} else if a[3].I == 2 {
+			from = addrN(51) // a foreign address all the same: the owner's host, another source port
 		}
 		var ms0, ms1 runtime.MemStats
 		runtime.ReadMemStats(&ms0)
